@@ -211,9 +211,9 @@ func (n *NativeHelper) RunOnce(req interface{}, resp interface{}, timeoutSec int
 }
 
 type NativeToken struct {
-	File             string
-	Off, Line, Col   int
-	Sym, Text        string
+	File           string
+	Off, Line, Col int
+	Sym, Text      string
 }
 
 type tokReply struct {
